@@ -5,6 +5,7 @@ Manager / AsyncManager) through the direct-drive harness; the oracle is the
 independent RoomsModel; every emit carries a unique token, so each delivered
 frame identifies its emit (exactly-once = multiset equality).
 """
+import asyncio
 import collections
 
 from vlib import refcodec as R
@@ -46,6 +47,11 @@ class History:
             coroutines=rng.random() < 0.7)
         self.script = {ns: list(v) for ns, v in script.items()}
         self.r = S.Runner(self.cfg)
+        # the application's disconnect handlers sometimes do the usual chat
+        # clean-up for the departing client: leave_room(sid, R), then tell R
+        self.disc_actions = {}     # sid -> (room, token)
+        self.disc_log = []
+        self._wrap_disconnect_handlers()
         self.m = RoomsModel()
         self.owner = {}          # sid -> (T, ns)
         self.dead = []           # sids no longer connected
@@ -56,6 +62,51 @@ class History:
         self.failed = False
         self.target = rng.choice([2, 3, 5, 8])
         self.stale = set()       # transports whose pings stopped long ago
+
+    def _wrap_disconnect_handlers(self):
+        sio = self.r.sio
+        actions, log = self.disc_actions, self.disc_log
+        is_async = self.r.d.is_async
+        for ns, hs in list(sio.handlers.items()):
+            orig = hs.get('disconnect')
+            if orig is None or ns == '*':
+                continue
+            if is_async:
+                def mk(ns, orig):
+                    async def on_disconnect(sid, reason):
+                        act = actions.pop(sid, None)
+                        if act:
+                            room, tok = act
+                            try:
+                                await sio.leave_room(sid, room, namespace=ns)
+                                await sio.emit('tok%d' % tok, {'t': tok},
+                                               to=room, namespace=ns)
+                                log.append((sid, room, tok, sorted(
+                                    sio.rooms(sid, namespace=ns), key=repr)))
+                            except Exception as e:
+                                log.append((sid, room, tok, 'raised %r' % e))
+                        r = orig(sid, reason)
+                        if asyncio.iscoroutine(r):
+                            r = await r
+                        return r
+                    return on_disconnect
+            else:
+                def mk(ns, orig):
+                    def on_disconnect(sid, reason):
+                        act = actions.pop(sid, None)
+                        if act:
+                            room, tok = act
+                            try:
+                                sio.leave_room(sid, room, namespace=ns)
+                                sio.emit('tok%d' % tok, {'t': tok}, to=room,
+                                         namespace=ns)
+                                log.append((sid, room, tok, sorted(
+                                    sio.rooms(sid, namespace=ns), key=repr)))
+                            except Exception as e:
+                                log.append((sid, room, tok, 'raised %r' % e))
+                        return orig(sid, reason)
+                    return on_disconnect
+            hs['disconnect'] = mk(ns, orig)
 
     # ---------------------------------------------------------------- gen
     def some_sid(self, live_bias=0.85):
@@ -203,9 +254,73 @@ class History:
                     [self.rng.choice(['exc', 'base'])]
             self.r.disconnect_script = list(script)
             self.ctx.count('disconnects_with_failing_handler')
-        self.ops.append(op + ([{'handler': script}] if script else []))
+        # clean-up by the disconnect handler (only where exactly one client
+        # connection ends and its transport is alive)
+        cleanup = None
+        if kind in ('cdisc', 'sdisc') and not script and \
+                self.rng.random() < 0.3:
+            if kind == 'cdisc':
+                dsid = next((s for s, o in self.owner.items()
+                             if o == (op[1], op[2]) and
+                             m.connected(s, op[2])), None)
+                dns = op[2]
+            else:
+                dsid, dns = op[1], op[2]
+            if dsid is not None and m.connected(dsid, dns) and \
+                    dns in self.served and \
+                    self.owner.get(dsid, (None,))[0] not in self.stale:
+                rooms = sorted((x for x in m.rooms(dsid, dns) if x != dsid),
+                               key=repr)
+                if rooms:
+                    self.token += 1
+                    room = self.rng.choice(rooms)
+                    others = [x for x in m.members(dns, room) if x != dsid]
+                    if not any(self.owner[x][0] in self.stale
+                               for x in others):
+                        cleanup = (dsid, dns, room, self.token, others)
+                        self.disc_actions[dsid] = (room, self.token)
+        self.ops.append(op + ([{'handler': script}] if script else []) +
+                        ([{'cleanup': list(cleanup[2:4])}] if cleanup
+                         else []))
+        del self.disc_log[:]
         res = self.r.step(op)
+        self.disc_actions.clear()
         self.r.disconnect_script = []
+        if cleanup:
+            dsid, dns, room, tok, others = cleanup
+            self.ctx.count('disconnect_handler_cleanups')
+            sent0 = res.get('sent', {})
+            got = collections.Counter()
+            for T, pkts in list(sent0.items()):
+                keep = []
+                for p in pkts:
+                    if p['type'] in (R.EVENT, R.BINARY_EVENT) and \
+                            isinstance(p['data'], list) and p['data'] and \
+                            p['data'][0] == 'tok%d' % tok:
+                        got[(T, p['nsp'])] += 1
+                    else:
+                        keep.append(p)
+                if keep:
+                    sent0[T] = keep
+                else:
+                    del sent0[T]
+            want = collections.Counter(
+                {(self.owner[x][0], dns): 1 for x in others})
+            logged = [e for e in self.disc_log if e[0] == dsid]
+            if len(logged) != 1 or not isinstance(logged[0][3], list):
+                return self.fail('the disconnect handler\'s clean-up '
+                                 '(leave_room, emit, rooms) did not run '
+                                 'normally: %r' % (logged,), res)
+            if got != want:
+                return self.fail(
+                    'the disconnect handler of %r left room %r and then '
+                    'emitted to it: delivered to %s, the other members are '
+                    '%s' % (dsid, room, sorted(got.items()),
+                            sorted(want)), res)
+            if room in logged[0][3]:
+                return self.fail('rooms(%r) inside its disconnect handler '
+                                 'still lists %r after leave_room' % (
+                                     dsid, room), res)
         if script:
             if res.get('exc') in ('Injected', 'InjectedBase'):
                 res['exc'] = None
@@ -443,6 +558,7 @@ def run(ctx):
     ctx.require('room_ops', 20)
     ctx.require('disconnects', 5)
     ctx.require('disconnects_with_failing_handler', 5)
+    ctx.require('disconnect_handler_cleanups', 5)
     ctx.require('clients_found_dead_during_emit', 3)
     ctx.require('connects_refused_by_handler', 5)
     # threaded server: emits racing with membership changes made by other
